@@ -30,9 +30,10 @@ type MInst struct {
 }
 
 type ModelWorld struct {
-	Now   int64
-	Cache map[string]int
-	Insts []*MInst
+	NoListeners bool
+	Now         int64
+	Cache       map[string]int
+	Insts       []*MInst
 }
 
 func NewModelWorld(pool []Inst, t0 int64) *ModelWorld {
@@ -270,6 +271,12 @@ func (x *mexec) run(pos int) pr {
 			x.last[len(x.last)-1] = lastRes{r.val, r.err}
 			e := x.emitAttempt(pol, pos, "OnRetryScheduled", r.val, r.err)
 			e.HasDelay = true
+			if in.CancelInScheduled && !mw.NoListeners {
+				x.rootCancelled = true
+			}
+			if c, cr := x.cancelledAt(pos); c {
+				return cr // cancelled before the retry was started: no OnRetry, no new attempt
+			}
 			x.attempts++
 			x.retries++
 			x.emitAttempt(pol, pos, "OnRetry", r.val, r.err)
